@@ -1,22 +1,22 @@
 CONSTANTS
   Dev_AdoptClientSecurity = FALSE
   Dev_IgnoreSigFailure = FALSE
-  Dev_TokenKeyLimits = TRUE
+  Dev_TokenKeyLimits = FALSE
   Dev_StatusSkipsVerify = FALSE
-  Dev_CloseOnce = FALSE
+  Dev_CloseOnce = TRUE
   Dev_RecycledConfig = FALSE
   Dev_AdvertiseExtra = FALSE
   Dev_DropPolicy = ""
   Dev_WrongTokenPolicy = FALSE
-  SresSet = {"good", "goodsub", "uncertain", "bad"}
-  MaxAttempts = 1
+  SresSet = {"good"}
+  MaxAttempts = 3
   Histories = {"none"}
-  ConfigSet = "one"
+  ConfigSet = "seq"
   Scripted = TRUE
-  Intents = {"endpoint", "raw"}
-  DiagKeys = FALSE
+  Intents = {"endpoint"}
+  DiagKeys = TRUE
   Emit = "none"
 INIT Init
 NEXT Next
-INVARIANT InvInterop
+INVARIANT InvCleanAfterFailure
 CHECK_DEADLOCK FALSE
